@@ -1,6 +1,8 @@
 """C05 Interchange moves exactly one box past a disconnected neighbour."""
 import itertools
 
+import numpy as np
+
 from hypothesis import strategies as st
 
 from harness import core, specs, gen, common, classes, qspec  # noqa: F401
@@ -69,6 +71,19 @@ def check_adjacent(d, spec, order, i, left, interp):
         after = specs.ref_eval(
             common.permute_layers(spec, new_order, new.offsets), dims, arrays)
         require(common.exact_equal(before, after), "C05:denotation-changed",
+                lambda: "{} -> {}".format(d, new))
+        if spec["cls"] == "rigid" and all(
+                getattr(bx, "data", None) is None for bx in d.boxes):
+            # ... and under the library's own tensor functor
+            from harness.props import c09
+            F = c09.functor_of({"d": spec, "as_dim": False, "callable": False,
+                                "lists": False}, dims, arrays)
+            lib_before, lib_after = F(d), F(new)
+            require(common.exact_equal(
+                np.asarray(lib_before.array).reshape(before.shape), before)
+                and common.exact_equal(
+                    np.asarray(lib_after.array).reshape(after.shape), after),
+                "C05:denotation-under-the-library-functor",
                 lambda: "{} -> {}".format(d, new))
     return new, new_order
 
